@@ -4,6 +4,7 @@ import json
 from .. import corr
 
 STREAMS = ["plugins"]
+REGENERATE_SRC = True
 RULE = ("0..8 section plugins with random acyclic before/after graphs (plus constraints naming absent plugins, "
         "self-constraints, occasional cycles) given as list / tuple / set / generator / iterator, loaded twice, required flags, digests returning None or a value; configs = subsets "
         "of the sections ± unknown sections ± a logging section; section content = a mapping, or (30 %) None / 0 / False / "
